@@ -1267,6 +1267,11 @@ namespace
             runtime.__logmsg(err::NegativeIndex(runtime.context_active().current_frame().diag_info_from_position()));
             return {};
         }
+        if (index >= 9999999)
+        { // arrays are limited to 9,999,999 elements
+            runtime.__logmsg(err::IndexOutOfRange(runtime.context_active().current_frame().diag_info_from_position(), 9999999, index));
+            return {};
+        }
         auto val = params[1];
         auto oldsize = arr->size();
         if (static_cast<int>(arr->size()) <= index)
